@@ -16,7 +16,7 @@ CHECKS = {
          "Trusted: the boolean model, libsecp256k1 for signatures, the Elements environment builder. Leaf truths come from executing the library's own one-leaf programs (so lock-time answers are true of the environment by construction).",
          "DESIGN.md §6 C16"),
  "C02": ("property-based testing: raw byte strings, byte-level mutations of valid encodings and single-rule canonicity violations assembled with an independent bit-level writer; round-trip (re-encode = input) oracle with fuel and allocation meters",
-         "Exploration: every input is decoded by RedeemNode::decode, CommitNode::decode and ConstructNode::decode under a DAG-step fuel limit (2^28), an allocation bound (96 MiB + 4096*len) and with overflow checks on; anything accepted must re-encode to exactly the input; a directed valid program whose witness has a zero-width type with 2^k tree nodes (k = 20..64) must be accepted within the same bounds; each directed negative (unused node, non-canonical order, unshared duplicate, repeated hidden node, trailing byte, non-zero padding, short witness) must be rejected while its canonical twin is accepted.",
+         "Exploration: every input is decoded by RedeemNode::decode, CommitNode::decode and ConstructNode::decode under a DAG-step fuel limit (2^28), an allocation bound (96 MiB + 4096*len) and with overflow checks on; anything accepted must re-encode to exactly the input; a directed valid program whose witness has a zero-width type with 2^k tree nodes (k = 20..64) must be accepted within the same bounds; a jet node carrying an unassigned code of the family's prefix tree (computed from the encoder's tables, extended by 0..2 bits) must be rejected; each directed negative (unused node, non-canonical order, unshared duplicate, repeated hidden node, trailing byte, non-zero padding, short witness) must be rejected while its canonical twin is accepted.",
          "Trusted: model::wire (reader/writer of the bit format, cross-checked against the encoder on every valid program), the fuel hook, the counting allocator. Jet bit codes come from the crate's encode tables. The libFuzzer campaign of the thorough tier extends the raw-bytes part.",
          "DESIGN.md §6 C02"),
  "C03": ("property-based differential testing against the vendored C implementation: valid, pruned, mutated and raw (program, witness) byte pairs",
@@ -32,8 +32,8 @@ CHECKS = {
          "Trusted: the IR-first generator (the inference context holds only the program's own nodes, as the quantifier requires; commit-time programs never share witness/disconnect-bearing sub-expressions). Programs produced by prune are outside this property's quantifier and are checked by C08.",
          "DESIGN.md §6 C01"),
  "C08": ("property-based testing: generated satisfying programs x witnesses; metamorphic/differential oracle (same cmr, still runs, Rust re-decode, libsimplicity CHECK_ALL via own 9-parameter binding, idempotence)",
-         "Exploration: every generated Elements program that runs is pruned; the result must keep the cmr, run, decode back to itself in Rust, be accepted by the C decoder/type checker and by evalTCOExpression(CHECK_ALL), and be a fixed point of prune.",
-         "Trusted: libsimplicity as reference for the anti-DoS rule; own extern declaration of evalTCOExpression with the C header's parameter list; minimal Elements environment (jets are the Elements namesakes of modelled Core jets). Known finding F15 is excluded by a predicate on the pruned program (case/assertion identity-root collision).",
+         "Exploration: every generated Elements program that runs is pruned; (half of them after a round trip through their own serialisation, i.e. maximally shared) the result must keep the cmr, run, decode back to itself in Rust, be accepted by the C decoder/type checker and by evalTCOExpression(CHECK_ALL), and be a fixed point of prune.",
+         "Trusted: libsimplicity as reference for the anti-DoS rule; own extern declaration of evalTCOExpression with the C header's parameter list; minimal Elements environment (jets are the Elements namesakes of modelled Core jets). Known finding F15 is excluded by a predicate on the pruned program (case/assertion identity-root collision), known finding F18 by a predicate on the unpruned run (distinct case objects of one identity hash taking different branches).",
          "DESIGN.md §6 C08"),
  "C12": ("property-based testing: generated programs x wrong-typed witness candidates x API routes; validity predicate on the result",
          "Exploration of a validity predicate: for right-typed, wider, narrower, same-width-other-shape, unit and missing candidates on every witness node, finalize_unpruned, finalize_pruned, the witness-map route (Forest::from_program) and a forest route with several roots (holes named after other roots, one name shared by several disconnect nodes at different types; right-typed witnesses only) must return Err or a program whose witnesses all have their node's target type, whose serialisation decodes back (with well-typed decoded witnesses) and which runs without panic.",
@@ -60,7 +60,7 @@ CHECKS = {
          "Trusted: the recursive specifications in harness/src/props/c18.rs. Every shape of <= 48 nodes is also built as a DAG of real CommitNodes (unit/iden, injl, pair) and walked with the library's own MaxSharing<Commit> and InternalSharing trackers on &Node and Arc<Node> (post-order items, pre-order set, is_shared_as for the three policies) against a recursive specification over pointers / identity hashes.",
          "DESIGN.md §6 C18"),
  "C06": ("property-based differential testing of the Rust Bit Machine against libsimplicity's evaluator: generated Elements programs and per-jet templates (all 471 jets) x generated witnesses x generated transaction environments; verdict comparison",
-         "Exploration with a differential partner: the verdict of BitMachine::exec (success / assertion / jet failure) must equal the verdict of evalTCOExpression(CHECK_NONE) on the program's serialisation in the same marshalled environment. Per-jet templates compare the jet's output inside the program with the value the Rust machine observed (combinator-only equality feeding assertr or the verify jet), so the verdict depends on every output bit as the C evaluator computes it; one-bit mutations of the expected value must fail with the predicted kind on both sides. The jet's argument sits alone in a fresh frame or, in half of the templates, behind / in front of a non-zero neighbour inside a larger frame; a delegation template checks the root that disconnect hands to its left child.",
+         "Exploration with a differential partner: the verdict of BitMachine::exec (success / assertion / jet failure) must equal the verdict of evalTCOExpression(CHECK_NONE) on the program's serialisation in the same marshalled environment. Per-jet templates compare the jet's output inside the program with the value the Rust machine observed (combinator-only equality feeding assertr or the verify jet), so the verdict depends on every output bit as the C evaluator computes it; one-bit mutations of the expected value must fail with the predicted kind on both sides. The jet's argument sits alone in a fresh frame or, in half of the templates, behind / in front of a non-zero neighbour inside a larger frame; a delegation template checks the root that disconnect hands to its left child; further templates run one jet twice on one frame, execute one shared case node twice (right, then left) before the frame is read again, and start from memory that an earlier frame filled with ones.",
          "Trusted: libsimplicity as the reference; own extern declaration of evalTCOExpression with the C header's 9 parameters; the environment is marshalled once by ElementsEnv::new and shared (as the property states; its content is C15's subject). Programs with fail nodes are outside (C does not decode them); for_program refusals, LimitExceeded and C ExecMemory/ExecBudget/Malloc are counted as outside the limits. A program C refuses to decode or type is C03's subject and is counted, not compared.",
          "DESIGN.md §6 C06"),
  "C15": ("property-based testing: generated Elements transaction environments x 67 introspection jets x in-range and out-of-range indices, against field values recomputed from the Rust-side description",
@@ -72,7 +72,7 @@ CHECKS = {
          "Trusted: the independent text printer gen::text (a text it prints may be rejected, e.g. for an ascription that no longer fits; only accepted texts are held to the round trip), the walk comparison shared with C01. Texts > 40 kB and renderings > 120 kB are skipped for cost (the lexer is quadratic). Allocation growth of parse and panics of the ErrorSet display with source attached are labelled observations, outside the statement.",
          "DESIGN.md §6 C17"),
  "C20": ("property-based testing over generated job batches and thread assignments: sequential run vs concurrent run on 2-16 OS threads with a start barrier; per-job digest equality",
-         "Exploration with a determinism oracle: every job (type inference in a fresh context, witness attachment, encode/decode, roots, bounds, execution with C jets, prune, text render/parse, Value hashing/comparison on Arcs shared between threads) returns a digest of everything it computed; digests of the concurrent run must equal those of the sequential run and no thread may panic. A further job kind records the first-occurrence pattern of the names of n fresh type variables of one context (unique names <=> 0,1,2,..). In 19% of the batches the concurrent run happens in a fresh child process that has not used the library before (first-use initialisation under contention), in another 19% before the sequential run. The harness does not own the scheduler: interleavings are whatever 16 cores produce under a barrier start, so this can only find races that manifest readily.",
+         "Exploration with a determinism oracle: every job (type inference in a fresh context, witness attachment, encode/decode, roots, bounds, execution with C jets, prune, text render/parse, Value hashing/comparison on Arcs shared between threads) returns a digest of everything it computed; digests of the concurrent run must equal those of the sequential run and no thread may panic. A further job kind records the first-occurrence pattern of the names of n fresh type variables of one context (unique names <=> 0,1,2,..). Every thread starts, behind a spin rendezvous, with a probe (the library's precomputed type tables, a C jet call, eight own environments with 1000 fee outputs built, read through jets and dropped, 5000 fresh variable names) whose digest must equal that of the probe run alone; a job kind builds an environment from a generated description and reads it back. In 19% of the batches the concurrent run happens in a fresh child process that has not used the library before (the probe runs there on 16 threads before anything else), in another 19% before the sequential run. A failing batch is re-run alone up to six times and reported even if it does not fail again (the outcome depends on scheduling). The harness does not own the scheduler: interleavings are whatever 16 cores produce under a barrier start, so this can only find races that manifest readily.",
          "Trusted: the digest functions; thread assignment is drawn from the stream but OS scheduling is not reproducible: a replay file reproduces the batch and assignment, not the interleaving. Weak level by nature of the technique (stated in DESIGN.md §6 C20).",
          "DESIGN.md §6 C20"),
  # id: (technique, level text, level note, design ref)
